@@ -170,8 +170,9 @@ def bind_roles(prog: Program) -> tuple[str, str]:
         raise AnalysisError(f"{ACTOR}: {len(inner)} methods play the role of {STARTER_HINT} (create the distribution "
                             "task, attach its done-callback and register it as in flight)")
     targets = {t for m in closure(starter) for cb, nested in cb_args.get(m, [])
-               for t in [callback_target(cb, nested)] if t in cls.methods}
-    restart = {m for m in cls.methods if m not in ("_run", "__init__", starter) and starter in calls.get(m, ())}
+               for t in [callback_target(cb, nested, cls.methods, 0, cls.module.functions)] if t in cls.methods}
+    restart = {m for m in cls.methods if m not in ("__init__", starter) and starter in calls.get(m, ())
+               and m not in closure("_run")}     # restarts requests, but is not part of the request loop
     if len(targets) == 1:
         handler = next(iter(targets))
     elif HANDLER_HINT in cls.methods and (not targets or HANDLER_HINT in targets):
@@ -253,6 +254,10 @@ def check_reg(run: Run, prog: Program, ctx: Ctx) -> None:  # noqa: C901
                 and u(cb.args[0]) == f"self.{ctx.handler}":
             a = _bound(ast.Call(func=cb.args[0], args=cb.args[1:], keywords=cb.keywords), hp)
             return a == {hp[0]: key, hp[1]: req}
+        elif isinstance(cb, (ast.Name, ast.Call)):
+            # a callable built somewhere the walker could not read (a multi-statement closure, an
+            # unknown factory): nothing can be said about it
+            raise AnalysisError(f"{fn.qual}: the done-callback `{u(cb)[:80]}` is not a callable the walker can read")
         else:
             return False
         if body is None or not _is_self_call(body, ctx.handler):
